@@ -59,6 +59,10 @@ var extensionPool = []string{
 	`<b xmlns="urn:y" k="v">t<c/></b>`,
 	`<a xmlns="urn:x"/><b xmlns="urn:y">&lt;&amp;</b>`,
 	`<p:a xmlns:p="urn:x" p:k="1"/>`,
+	`<p:a xmlns:p="urn:x"><p:b/><q:c xmlns:q="urn:y" q:k="v">t</q:c></p:a>`,
+	`<a xmlns="urn:x"><b xmlns="urn:y"><c xmlns="urn:x"/></b></a>`,
+	`<a xmlns="urn:x" xmlns:q="urn:y" q:k="v" xml:lang="de"><q:b xml:space="preserve"> </q:b></a>`,
+	`<a xmlns="urn:x"><c xmlns=""/></a>`, // a child in no namespace cannot be written by encoding/xml: not canonical
 	`<a xmlns="urn:x" xml:lang="en">é</a>`,
 	`<nons/>`,           // inherits the bookmark namespace when embedded: not canonical
 	`just text`,         // not canonical (extensions are elements)
@@ -168,6 +172,10 @@ func withNorm[T any](f func(v T) T) func(*entry) {
 			return &x
 		}
 	}
+}
+
+func wholesale(fields ...string) func(*entry) {
+	return func(e *entry) { e.wholesale = fields }
 }
 
 func noDecoder(e *entry) { e.fresh = nil; e.noDocs = true }
@@ -291,7 +299,7 @@ func buildRegistry() []*entry {
 	add(refl[stanza.OriginID]("stanza.OriginID"))
 
 	// ---- xtime
-	add(refl[xtime.Time]("xtime.Time", func(e *entry) {
+	add(refl[xtime.Time]("xtime.Time", wholesale("Time"), func(e *entry) {
 		// the payload carries the zone offset (<tzo/>): it is part of the value
 		e.cmpOpt = func(c *cmp) { c.sameOffset = true }
 	}))
@@ -305,10 +313,11 @@ func buildRegistry() []*entry {
 
 	// ---- receipts
 	add(&entry{
-		name:    "receipts.Requested",
-		gen:     func(g *gen) any { r := receipts.Requested(g.r.Intn(2) == 0); return &r },
-		fresh:   func() any { return new(receipts.Requested) },
-		emptyOK: func(v any) bool { return !bool(*v.(*receipts.Requested)) },
+		name:      "receipts.Requested",
+		wholesale: []string{"*"},
+		gen:       func(g *gen) any { r := receipts.Requested(g.r.Intn(2) == 0); return &r },
+		fresh:     func() any { return new(receipts.Requested) },
+		emptyOK:   func(v any) bool { return !bool(*v.(*receipts.Requested)) },
 	})
 
 	// ---- roster
@@ -316,7 +325,7 @@ func buildRegistry() []*entry {
 	add(refl[roster.IQ]("roster.IQ"))
 
 	// ---- blocklist
-	add(refl[blocklist.Item]("blocklist.Item", withCanon(func(v *blocklist.Item) string {
+	add(refl[blocklist.Item]("blocklist.Item", wholesale("JID", "Reason", "StanzaIDs", "Text"), withCanon(func(v *blocklist.Item) string {
 		if v.Reason == "" && (len(v.StanzaIDs) > 0 || v.Text != "") {
 			return "report without a reason (XEP-0377 requires the reason attribute; the encoder substitutes spam)"
 		}
@@ -324,7 +333,8 @@ func buildRegistry() []*entry {
 	})))
 
 	// ---- bookmarks
-	add(refl[bookmarks.Channel]("bookmarks.Channel", func(e *entry) {
+	add(refl[bookmarks.Channel]("bookmarks.Channel", wholesale("Autojoin", "Name", "Nick", "Password", "Extensions"), func(e *entry) {
+		e.rawXML = true
 		e.canon = func(v any) string {
 			c := v.(*bookmarks.Channel)
 			if len(c.Extensions) == 0 {
@@ -335,7 +345,7 @@ func buildRegistry() []*entry {
 				return "extensions are not well-formed XML"
 			}
 			for _, n := range st.Elems {
-				if n.Name.Space == "" {
+				if n.Find(func(x *xmltree.Node) bool { return x.Name.Space == "" }) != nil {
 					return "extension element without a namespace"
 				}
 			}
@@ -366,10 +376,10 @@ func buildRegistry() []*entry {
 		}
 		return ""
 	})))
-	add(refl[history.Result]("history.Result"))
+	add(refl[history.Result]("history.Result", wholesale("Set")))
 
 	// ---- muc
-	add(refl[muc.Invitation]("muc.Invitation", func(e *entry) {
+	add(refl[muc.Invitation]("muc.Invitation", wholesale("XMLName", "Continue", "JID", "Password", "Reason", "Thread"), func(e *entry) {
 		e.canon = func(v any) string {
 			i := v.(*muc.Invitation)
 			if i.Thread != "" && !i.Continue {
@@ -407,9 +417,10 @@ func buildRegistry() []*entry {
 		return ""
 	})))
 	add(&entry{
-		name:  "commands.Actions",
-		gen:   func(g *gen) any { a := commands.Actions(g.r.Intn(256)); return &a },
-		fresh: func() any { return new(commands.Actions) },
+		name:      "commands.Actions",
+		wholesale: []string{"*"},
+		gen:       func(g *gen) any { a := commands.Actions(g.r.Intn(256)); return &a },
+		fresh:     func() any { return new(commands.Actions) },
 		canon: func(v any) string {
 			a := *v.(*commands.Actions)
 			if a&0xC0 != 0 {
@@ -431,7 +442,7 @@ func buildRegistry() []*entry {
 	add(refl[version.Query]("version.Query"))
 
 	// ---- upload
-	add(refl[upload.File]("upload.File"))
+	add(refl[upload.File]("upload.File", wholesale("Name", "Size", "Type")))
 	add(refl[upload.Slot]("upload.Slot", func(e *entry) {
 		// Slot.Header: "The only valid headers are Authorization, Cookie and
 		// Expires. All other headers will be ignored"; the encoder canonicalises
@@ -448,15 +459,25 @@ func buildRegistry() []*entry {
 	}))
 
 	// ---- bin
-	add(refl[bin.Data]("bin.Data", withCanon(func(d *bin.Data) string {
+	add(refl[bin.Data]("bin.Data", wholesale("CID", "NoCache", "Type", "Data"), withCanon(func(d *bin.Data) string {
+		// "MaxAge is a hint for how long (rounded to the nearest second) the data
+		// should be cached."  Judged against that: any duration that rounds to at
+		// least one second, except exact half seconds (the documentation does not
+		// say which way a tie goes).  Not judged: negative values, and values
+		// below half a second - they round to zero, which the wire format reads
+		// as the explicit do-not-cache hint.
 		if d.MaxAge < 0 {
 			return "negative max-age"
 		}
-		if d.MaxAge%time.Second != 0 {
-			return "max-age is documented as rounded to the nearest second"
+		if d.MaxAge > 0 && d.MaxAge < 500*time.Millisecond+1 {
+			return "max-age that rounds to zero seconds (or ties)"
+		}
+		if d.MaxAge%time.Second == 500*time.Millisecond {
+			return "max-age exactly between two seconds"
 		}
 		return ""
 	}), withNorm(func(d bin.Data) bin.Data {
+		d.MaxAge = d.MaxAge.Round(time.Second) // documented rounding
 		if d.NoCache {
 			d.MaxAge = 0 // documented: NoCache overrides MaxAge
 		}
@@ -464,7 +485,7 @@ func buildRegistry() []*entry {
 	})))
 
 	// ---- file
-	add(refl[file.Meta]("file.Meta", withCanon(func(m *file.Meta) string {
+	add(refl[file.Meta]("file.Meta", wholesale("MediaType", "Name", "Date", "Size", "Hash", "Width", "Height", "Length"), withCanon(func(m *file.Meta) string {
 		if !hashValid(m.Hash.Hash) {
 			return "no (valid) hash function"
 		}
@@ -481,7 +502,7 @@ func buildRegistry() []*entry {
 		fresh: func() any { return new(crypto.Hash) },
 	})
 	add(attrEnumEntry("crypto.Hash(attr)"))
-	add(refl[crypto.HashOutput]("crypto.HashOutput", withCanon(func(h *crypto.HashOutput) string {
+	add(refl[crypto.HashOutput]("crypto.HashOutput", wholesale("Hash", "Out"), withCanon(func(h *crypto.HashOutput) string {
 		if !hashValid(h.Hash) {
 			return "hash function without a wire name"
 		}
@@ -490,12 +511,12 @@ func buildRegistry() []*entry {
 		}
 		return ""
 	})))
-	add(refl[crypto.Key]("crypto.Key"))
-	add(refl[crypto.OwnedKeys]("crypto.OwnedKeys"))
-	add(refl[crypto.TrustMessage]("crypto.TrustMessage"))
+	add(refl[crypto.Key]("crypto.Key", wholesale("Trusted", "KeyID")))
+	add(refl[crypto.OwnedKeys]("crypto.OwnedKeys", wholesale("Owner", "Keys")))
+	add(refl[crypto.TrustMessage]("crypto.TrustMessage", wholesale("Usage", "Encryption", "Keys")))
 
 	// ---- styling
-	add(refl[styling.Unstyled]("styling.Unstyled", func(e *entry) {
+	add(refl[styling.Unstyled]("styling.Unstyled", wholesale("Value"), func(e *entry) {
 		e.emptyOK = func(v any) bool { return !v.(*styling.Unstyled).Value }
 	}))
 
